@@ -65,6 +65,7 @@ def close(g, e): return is_num(g) and not math.isnan(g) and abs(g - e) <= 1e-9 *
 def cell_ok(g, e, rep, i, chosen, pos):
     """does the produced value g agree with the expected model cell e?"""
     t = e["t"]
+    if t == "free": return True          # the property does not determine this cell (a statistic that cannot be computed)
     if t == "none": return g is None
     if t == "nan": return isinstance(g, float) and math.isnan(g)
     if t == "str": return isinstance(g, str) and g == STR[e["v"]]
@@ -164,6 +165,7 @@ def col_traits(case, j):
     if col[0]["t"] == "none": tr.append("missing-first")
     if "none" in ts(col[1:u]): tr.append("missing-in-window")
     if "none" in ts(rest): tr.append("missing-after-window")
+    if all(c["t"] in ("none", "nan") for c in win): tr.append("empty-window")
     if win and all(c["t"] == "abs" for c in win): tr.append("key-absent-in-window")
     elif col[0]["t"] == "abs": tr.append("key-absent-first")
     return tr
@@ -175,6 +177,14 @@ def feature_of(case, pos):
     return {"a": 0, "b": 1}.get(pos)
 
 
+def contexts_differ(out, expected, rep):
+    chosen = {}
+    for i, o in enumerate(out):
+        d = compare_context(o["context"], expected[i], rep, i, chosen)
+        if d is not None: return i, d
+    return None
+
+
 def judge(case, rep, api, rows, keep, produce):
     """Compare what `produce()` yields for one sequence with the spec's expectation.  None or (kind, detail, at, text)."""
     out = []
@@ -184,7 +194,6 @@ def judge(case, rep, api, rows, keep, produce):
         return ("raises", type(e).__name__, len(out), "%s: %s after %d of %d interactions" % (type(e).__name__, str(e)[:100], len(out), len(rows)))
     if len(out) != len(rows):
         return ("count", "", None, "%d interactions in, %d out" % (len(rows), len(out)))
-    chosen = {}
     for i, (o, r) in enumerate(zip(out, keep)):
         if set(o.keys()) != set(r.keys()):
             return ("fields", "keys", None, "interaction %d has fields %s, had %s" % (i, sorted(o.keys()), sorted(r.keys())))
@@ -196,11 +205,12 @@ def judge(case, rep, api, rows, keep, produce):
                 same = [o[k](a) for a in r["actions"]] == r[k]
             if not same:
                 return ("fields", k, None, "interaction %d: field %r changed from %r to %r" % (i, k, r[k], o[k]))
-        d = compare_context(o["context"], case["expected"][i], rep, i, chosen)
-        if d is not None:
-            pos, e, g = d
-            return ("differs", (pos, e, g, i), None, "interaction %d, position %r: expected %s, got %r (context %r -> %r)" % (
-                i, pos, json.dumps(e) if e else "nothing / another layout", g, r["context"], o["context"]))
+    bad = contexts_differ(out, case["expected"], rep)
+    if bad is not None and any(contexts_differ(out, alt, rep) is None for alt in case.get("alts", ())): bad = None
+    if bad is not None:
+        i, (pos, e, g) = bad
+        return ("differs", (pos, e, g, i), None, "interaction %d, position %r: expected %s, got %r (context %r -> %r)" % (
+            i, pos, json.dumps(e) if e else "nothing / another layout", g, keep[i]["context"], out[i]["context"]))
     return None
 
 
@@ -234,7 +244,8 @@ def job(args):
     sub["MinRows = 1"] = "MinRows = %d" % lo; sub["MaxRows = 3"] = "MaxRows = %d" % hi
     if not quick and hi <= 3 and fam.startswith("scale"): sub["NumsS = {0, 1, 3}"] = "NumsS <- NumsWithNegative"    # a negative number where it is affordable
     cfg = tracecheck._cfg("ScaleImpute.cfg", sub, scratch, "si_%s.cfg" % name)
-    r = tlc.run("ScaleImpute", cfg, os.path.join(scratch, name), workers=3, timeout=1500, heap="6g")
+    r = tlc.run("ScaleImpute", cfg, os.path.join(scratch, name), workers=2 if quick else 3, timeout=1500, heap="6g",
+                env={"_JAVA_OPTIONS": "-XX:ParallelGCThreads=2 -XX:CICompilerCount=2"})     # many small JVMs side by side
     if r.violations:
         return dict(name=name, error="the oracle violates its own invariant %s: %s" % (r.violations[0]["name"], r.violations[0]["trace"][:6]))
     cases = [j for j in r.json if isinstance(j, dict) and "expected" in j]
@@ -246,6 +257,7 @@ def job(args):
     for c in cases: del c["_k"]
     # numbers as ints and as floats (thorough: also ints and floats alternating by row)
     reps = {a: ("int", "float") if quick else ("int", "float", "alt") for a in ("filter", "env", "envlist")}
+    if quick: reps["env"] = reps["envlist"] = ("int",)     # quick: floats go through the bare filters only (Environments wraps the same filter)
     # the second sequence of a case: another case of the same filter, layout, parameters and window (so both expectations
     # come from the spec), picked at a varying distance in the sorted group
     groups = {}
@@ -300,14 +312,14 @@ def run(ctx):
     import coba.environments, coba.environments.filters, coba.primitives      # imported before the workers are forked
     one = ["scale1d", "scale1v", "scale1s", "impute1d", "impute1v", "impute1s"]; two = ["scale2", "impute2"]
     if ctx.quick:
-        subst = {"Usings = {0, 1, 2}": "Usings = {0, 1, 2, 5}"}
-        jobs = [(f, f, 1, 3) for f in one] + [(f, f, 2, 2) for f in two]
+        subst = {}
+        jobs = [(f + u[0], f, 1, 3, u[1]) for f in one for u in (("_w01", "{0, 1}"), ("_w25", "{2, 5}"))] + [(f, f, 2, 2, None) for f in two]
     else:
-        subst = {"Usings = {0, 1, 2}": "Usings = {0, 1, 2, 5}", "Lite = TRUE": "Lite = FALSE"}
-        jobs = [("%s_%d" % (f, hi), f, lo, hi) for f in one for lo, hi in ((4, 4), (1, 3))] + [("%s_%d" % (f, n), f, n, n) for f in two for n in (3, 2)]
-    args = [(name, fam, lo, hi, ctx.quick, ctx.scratch, subst) for name, fam, lo, hi in jobs]
+        subst = {"Lite = TRUE": "Lite = FALSE"}
+        jobs = [("%s_%d" % (f, hi), f, lo, hi, "{0, 1, 2, 5}") for f in one for lo, hi in ((4, 4), (1, 3))] + [("%s_%d" % (f, n), f, n, n, None) for f in two for n in (3, 2)]
+    args = [(name, fam, lo, hi, ctx.quick, ctx.scratch, dict(subst, **({"Usings = {0, 1, 2}": "Usings = " + us} if us else {}))) for name, fam, lo, hi, us in jobs]
     total = 0; applications = 0
-    with ProcessPoolExecutor(ctx.pick(8, 12), mp_context=multiprocessing.get_context("fork")) as ex:
+    with ProcessPoolExecutor(ctx.pick(14, 12), mp_context=multiprocessing.get_context("fork")) as ex:
         for n, out in enumerate(ex.map(job, args)):         # results are consumed in the fixed order of `jobs`
             if "error" in out: raise MachineryError("job %s: %s" % (out["name"], out["error"]))
             ctx.add_tlc("ScaleImpute:" + out["name"], out["stats"])
@@ -322,7 +334,7 @@ def run(ctx):
     ctx.extra["bounds"] = dict(jobs=[j[0] for j in jobs], rows_one_feature=ctx.pick(3, 4), rows_two_features=ctx.pick(2, 3))
     ctx.assumptions += [
         "floats: produced values are compared with the spec's exact rationals to 1e-9 (relative); rounding, overflow and values within 1e-6 of a zero spread are not explored",
-        "outside the domain (spec InDomain): a feature with no non-missing value in the window, std over < 2 values, a non-zero shift for sparse contexts, NaN in Impute data, indicator=True with a missing value in the window of a feature that is not imputable, median over a window holding only strings, lists of statistics together with indicator=True",
+        "outside the domain (spec InDomain): a non-zero shift for sparse contexts, NaN in Impute data, lists of statistics together with indicator=True; cells whose statistic cannot be computed from the window (no non-missing value, std of < 2 values, median of strings) are accepted with any value unless shift and scale are both given numbers; a non-imputable feature with a None in the window may or may not get an indicator",
         "two-feature data sets pair an arbitrary column with one of four fixed companion columns (both orders)",
         "through Environments.scale / impute the trailing Finalize step of the pipeline is trusted (it wraps the reward list)",
     ]
@@ -342,6 +354,8 @@ def classify(case, rep, api, kind, detail, at):
     else:
         blamed = list(range(len(cols))); j = None
     if f == "scale":
+        if kind == "differs" and j is not None and "empty-window" in traits[j] and par["sh"]["k"] == "const" and par["sc"]["k"] == "const":
+            return "scale:given-numbers:no-value-in-window"
         if any("nan-in-window" in traits[b] for b in blamed): return "scale:nan-in-window"
         if kind == "raises" and detail == "TypeError" and at is not None and at < len(cols[0]):
             row = [c[at]["t"] for c in cols]                # the interaction that was being transformed
